@@ -216,6 +216,73 @@ func (r *rewriter) method(c *ast.CallExpr) (pkg, typ, meth string, recv ast.Expr
 	return named.Obj().Pkg().Path(), named.Obj().Name(), fn.Name(), sel.X, xIsPtr, true
 }
 
+// wrapFileArgs (R7b): a *os.File handed to a parameter of an interface type that can write (bufio.NewWriter(f),
+// io.WriteString(f, s), fmt.Fprint(f, ...), io.Copy(f, r)) is wrapped, so that writes made on klog's behalf inside
+// the standard library pass the same seam (events, faults) as writes klog makes itself.
+func (r *rewriter) wrapFileArgs(c *ast.CallExpr) {
+	info := r.pkg.TypesInfo
+	sig, ok := info.TypeOf(c.Fun).(*types.Signature)
+	if !ok || sig == nil {
+		return
+	}
+	shimMethods := map[string]bool{"Write": true, "WriteString": true, "Close": true, "Read": true, "Sync": true}
+	for i, arg := range c.Args {
+		at := info.TypeOf(arg)
+		if at == nil {
+			continue
+		}
+		ptr, isPtr := at.(*types.Pointer)
+		if !isPtr {
+			continue
+		}
+		named, isNamed := ptr.Elem().(*types.Named)
+		if !isNamed || named.Obj().Pkg() == nil || named.Obj().Pkg().Path() != "os" || named.Obj().Name() != "File" {
+			continue
+		}
+		if sel, isSel := arg.(*ast.SelectorExpr); isSel {
+			if id, isID := sel.X.(*ast.Ident); isID && id.Name == "os" {
+				continue // os.Stdout, os.Stderr, os.Stdin: not part of the simulated disk
+			}
+		}
+		var pt types.Type
+		switch {
+		case sig.Variadic() && i >= sig.Params().Len()-1:
+			pt = sig.Params().At(sig.Params().Len() - 1).Type()
+			if sl, isSl := pt.(*types.Slice); isSl && c.Ellipsis == token.NoPos {
+				pt = sl.Elem()
+			}
+		case i < sig.Params().Len():
+			pt = sig.Params().At(i).Type()
+		}
+		if pt == nil {
+			continue
+		}
+		iface, isIface := pt.Underlying().(*types.Interface)
+		if !isIface || iface.NumMethods() == 0 {
+			continue
+		}
+		canWrite, fits := false, true
+		for m := 0; m < iface.NumMethods(); m++ {
+			name := iface.Method(m).Name()
+			if !shimMethods[name] {
+				fits = false
+			}
+			if name == "Write" {
+				canWrite = true
+			}
+		}
+		if !canWrite {
+			continue
+		}
+		if !fits {
+			r.uncontrolled("file_as_interface_not_wrapped", arg.Pos())
+			continue
+		}
+		c.Args[i] = call("FileAsWriter", arg)
+		r.count("R7b_file_as_writer")
+	}
+}
+
 var osFuncs = map[string]string{
 	"ReadFile":   "FSReadFile",
 	"WriteFile":  "FSWriteFile",
@@ -290,6 +357,8 @@ func (r *rewriter) rewrite() bool {
 				n.Fun = sim(fileMethods[meth])
 				n.Args = append([]ast.Expr{recv}, n.Args...)
 				r.count("R7_file_method")
+			} else {
+				r.wrapFileArgs(n)
 			}
 		case *ast.SelectorExpr:
 			if p, name, ok := r.pkgFunc(n); ok {
